@@ -1,7 +1,325 @@
-(* C17 - placeholder while the proofs are being written *)
-From Coq Require Import ZArith List.
-From ScV Require Import Base.CInt C17.OptionsModel.
+(* C17 - option values depend only on the input and survive a save/load cycle.
+   Statements about the executable model coq/C17/OptionsModel.v (sc_options.c as repaired by bb105d5,
+   5b6f754, ede139e, 69d3f48, 5918853, 6404e3e, 5a6ac04; iniparser; key-value lookup) and
+   coq/C17/GetoptModel.v (GNU getopt_long).  The model is tied to /repo on every run by the
+   correspondence run of checks/C17.py.  strtod and "%.16g" are arbitrary functions in every theorem.
+   This file contains only statements, `exact` proofs, Print Assumptions and Examples. *)
+From Coq Require Import ZArith List Bool.
+From ScV Require Import Base.CInt C17.OptionsModel C17.GetoptModel.
+From ScV Require Import C17.NumProofs C17.IniProofs C17.SaveProofs C17.LoadProofs C17.OptionsProofs
+                        C17.HistoryProofs C17.GetoptProofs C17.WitnessProofs.
 Import ListNotations.
-Theorem C17_stub : strtol [49%Z; 50%Z] = (12%Z, false).
+Local Open Scope Z_scope.
+
+(* === 1. numeric conversion: the value the text denotes, an error exactly when it does not fit === *)
+
+(* decimal text (what "%d"/"%lld" print, any integer n), followed by anything that is not alphanumeric:
+   the value n when it fits a long, otherwise the clamped value with ERANGE *)
+Theorem C17_strtol_decimal : forall n rest, (match rest with [] => True | c :: _ => digit_val c = 99 end) ->
+  strtol (print_dec n ++ rest) =
+  if n <? LONG_MIN then (LONG_MIN, true) else if n >? LONG_MAX then (LONG_MAX, true) else (n, false).
+Proof. exact strtol_print_dec. Qed.
+Print Assumptions C17_strtol_decimal.
+
+(* hexadecimal and octal numerals of base 0, with optional sign: the Horner value of the digits *)
+Theorem C17_strtol_hex : forall (neg : bool) (ds rest : str), ds <> [] -> Forall (is_digit 16) ds -> stops 16 rest ->
+  forall x, x = 120 \/ x = 88 ->
+  strtol ((if neg then [cMINUS] else []) ++ c0 :: x :: ds ++ rest) = clamp_long neg (horner 16 0 ds).
+Proof. exact strtol_hex. Qed.
+Print Assumptions C17_strtol_hex.
+
+Theorem C17_strtol_octal : forall (neg : bool) (ds rest : str), Forall (is_digit 8) ds -> stops 8 rest ->
+  (match ds ++ rest with x :: h :: _ => ((x =? 120) || (x =? 88)) && (digit_val h <? 16) = false | _ => True end) ->
+  strtol ((if neg then [cMINUS] else []) ++ c0 :: ds ++ rest) = clamp_long neg (horner 8 0 ds).
+Proof. exact strtol_octal. Qed.
+Print Assumptions C17_strtol_octal.
+
+Theorem C17_clamp_long : forall (neg : bool) (m : Z), 0 <= m ->
+  let v := if neg then - m else m in
+  clamp_long neg m = if v <? LONG_MIN then (LONG_MIN, true) else if v >? LONG_MAX then (LONG_MAX, true) else (v, false).
+Proof. exact clamp_long_spec. Qed.
+Print Assumptions C17_clamp_long.
+
+(* sc_options_parse, SC_OPTION_INT / SC_OPTION_SIZE_T: the outcome is a function of the option
+   argument alone - not of errno, of the variable's old value or of anything else in the world *)
+Theorem C17_int_option_outcome : forall strtod w o k it a, it_type it = TInt ->
+  let r := apply_item strtod w o k it (Some a) in
+  match int_outcome a with
+  | Some v => fst r = 0 /\ w_store (snd r) = st_set (w_store w) (it_var it) (VI v)
+  | None => fst r = -1 /\ w_store (snd r) = w_store w
+  end.
+Proof. exact apply_int. Qed.
+Print Assumptions C17_int_option_outcome.
+
+Theorem C17_size_option_outcome : forall strtod w o k it a, it_type it = TSize ->
+  let r := apply_item strtod w o k it (Some a) in
+  match size_outcome a with
+  | Some v => fst r = 0 /\ w_store (snd r) = st_set (w_store w) (it_var it) (VI v)
+  | None => fst r = -1 /\ w_store (snd r) = w_store w
+  end.
+Proof. exact apply_size. Qed.
+Print Assumptions C17_size_option_outcome.
+
+(* ... and for the decimal text of ANY integer n it is n exactly when n fits the variable's type
+   (INT_MIN..INT_MAX; 0..LLONG_MAX as sc_options.h documents for size_t), an error otherwise *)
+Theorem C17_int_option_denotes : forall n rest, (match rest with [] => True | c :: _ => digit_val c = 99 end) ->
+  int_outcome (print_dec n ++ rest) = if (INT_MIN <=? n) && (n <=? INT_MAX) then Some n else None.
+Proof. exact int_outcome_dec. Qed.
+Print Assumptions C17_int_option_denotes.
+
+Theorem C17_size_option_denotes : forall n rest, (match rest with [] => True | c :: _ => digit_val c = 99 end) ->
+  size_outcome (print_dec n ++ rest) = if (0 <=? n) && (n <=? LONG_MAX) then Some n else None.
+Proof. exact size_outcome_dec. Qed.
+Print Assumptions C17_size_option_denotes.
+
+(* the same through a configuration file *)
+Theorem C17_file_int_in_range : forall n, INT_MIN <= n <= INT_MAX -> ini_int (print_dec n) = (n, false).
+Proof. exact ini_int_print_dec. Qed.
+Print Assumptions C17_file_int_in_range.
+Theorem C17_file_int_out_of_range : forall n, n < INT_MIN \/ INT_MAX < n -> snd (ini_int (print_dec n)) = true.
+Proof. exact ini_int_print_dec_out. Qed.
+Print Assumptions C17_file_int_out_of_range.
+Theorem C17_file_size_in_range : forall n, 0 <= n <= LONG_MAX -> ini_sizet (print_udec n) = (n, false).
+Proof. exact ini_sizet_print_udec. Qed.
+Print Assumptions C17_file_size_in_range.
+Theorem C17_file_size_out_of_range : forall n, n < 0 \/ LONG_MAX < n -> snd (ini_sizet (print_dec n)) = true.
+Proof. exact ini_sizet_print_dec_out. Qed.
+Print Assumptions C17_file_size_out_of_range.
+
+(* === 2. unknown options, booleans, key-value choices: the error return === *)
+Theorem C17_unknown_option : forall strtod w w' o evs1 c r oe av,
+  parse_loop strtod w o (evs1 ++ [GEnd]) = (0, w', []) ->
+  fst (fst (parse strtod w o (evs1 ++ GErr c :: r) oe av)) = -1 /\
+  o_first (get_opts (snd (fst (parse strtod w o (evs1 ++ GErr c :: r) oe av))) o) = -1.
+Proof. exact parse_unknown_after_prefix. Qed.
+Print Assumptions C17_unknown_option.
+
+Theorem C17_bad_boolean : forall strtod w o k it a, it_type it = TBool -> first_in s_yes a = false -> first_in s_no a = false ->
+  apply_item strtod w o k it (Some a) = (-1, w).
+Proof. exact apply_bool_bad. Qed.
+Print Assumptions C17_bad_boolean.
+
+Theorem C17_good_boolean : forall strtod w o k it a, it_type it = TBool ->
+  (first_in s_yes a = true -> apply_item strtod w o k it (Some a) = (0, set_store w (st_set (w_store w) (it_var it) (VI 1)))) /\
+  (first_in s_yes a = false -> first_in s_no a = true ->
+   apply_item strtod w o k it (Some a) = (0, set_store w (st_set (w_store w) (it_var it) (VI 0)))).
+Proof. exact apply_bool_good. Qed.
+Print Assumptions C17_good_boolean.
+
+Theorem C17_keyvalue_unknown : forall strtod w o k it a t, it_type it = TKeyvalue -> al_get (w_kvs w) (it_kv it) = Some t ->
+  (kv_find t a = None \/ kv_find t a = Some None) ->
+  fst (apply_item strtod w o k it (Some a)) = -1 /\
+  st_int (w_store (snd (apply_item strtod w o k it (Some a)))) (it_var it) = st_int (w_store w) (it_var it).
+Proof. exact apply_keyvalue_unknown. Qed.
+Print Assumptions C17_keyvalue_unknown.
+
+Theorem C17_keyvalue_known : forall strtod w o k it a t x, it_type it = TKeyvalue -> al_get (w_kvs w) (it_kv it) = Some t ->
+  kv_find t a = Some (Some x) ->
+  fst (apply_item strtod w o k it (Some a)) = 0 /\
+  st_int (w_store (snd (apply_item strtod w o k it (Some a)))) (it_var it) = x.
+Proof. exact apply_keyvalue_known. Qed.
+Print Assumptions C17_keyvalue_known.
+
+(* === 3. the same result whatever was parsed or had failed before === *)
+
+(* F-C17a (repaired bb105d5): for EVERY operation and EVERY world, perturbing errno changes neither
+   the return value nor the resulting world (variables, option tables, argument lists, files) *)
+Theorem C17_errno_irrelevant_step : forall strtod fmt16 x w e,
+  fst (fst (step strtod fmt16 (set_errno w e) x)) = fst (fst (step strtod fmt16 w x)) /\
+  snd (step strtod fmt16 (set_errno w e) x) = snd (step strtod fmt16 w x) /\
+  eqv (snd (fst (step strtod fmt16 (set_errno w e) x))) (snd (fst (step strtod fmt16 w x))).
+Proof. exact step_blind. Qed.
+Print Assumptions C17_errno_irrelevant_step.
+
+(* ... hence for ALL histories: an errno left behind (or set from outside) at any point of a history
+   changes no later return value and nothing of the final world but errno itself *)
+Theorem C17_history_errno_independent : forall strtod fmt16 w l1 e l2,
+  fst (run strtod fmt16 w (l1 ++ OErrno e :: l2)) =
+  fst (run strtod fmt16 w l1) ++ 0 :: fst (run strtod fmt16 (snd (run strtod fmt16 w l1)) l2)
+  /\ eqv (snd (run strtod fmt16 w (l1 ++ OErrno e :: l2))) (snd (run strtod fmt16 w (l1 ++ l2))).
+Proof. exact history_errno_independent. Qed.
+Print Assumptions C17_history_errno_independent.
+
+(* F-C17b (repaired 5b6f754): after `optind = 0` a getopt_long call does not depend on the state an
+   earlier scan left behind, so sc_options_parse on an argument vector is a function of the vector,
+   the declarations and the variables *)
+Theorem C17_getopt_reset_independent : forall shorts longs argv g1 g2,
+  getopt_call shorts longs argv (g_reset g1) = getopt_call shorts longs argv (g_reset g2).
+Proof. exact getopt_reset_independent. Qed.
+Print Assumptions C17_getopt_reset_independent.
+
+Theorem C17_parse_history_independent : forall strtod w o argv g1 g2,
+  fst (parse_argv strtod w o argv g1) = fst (parse_argv strtod w o argv g2).
+Proof. exact parse_argv_history_independent. Qed.
+Print Assumptions C17_parse_history_independent.
+
+(* without the reset the statement is false: a second scan of "prog -i 7 -x rest" returns -1 at once;
+   after a failure inside the clustered word "-xZq" even `optind = 1` executes the pending "q" *)
+Theorem C17_stale_optind_refuted :
+  fst (fst (getopt_calls 3 ex_shorts [] ex_argv g_start)) = [GShort 105 (Some [55]); GShort 120 None; GEnd] /\
+  fst (fst (getopt_call ex_shorts [] ex_argv g_after_first)) = GEnd /\
+  fst (fst (getopt_calls 3 ex_shorts [] ex_argv (g_reset g_after_first))) = [GShort 105 (Some [55]); GShort 120 None; GEnd].
+Proof. exact stale_optind_refuted. Qed.
+Print Assumptions C17_stale_optind_refuted.
+
+Theorem C17_stale_cluster_refuted :
+  fst (fst (getopt_calls 2 ex_shorts [] ex_argv_bad g_start)) = [GShort 120 None; GErr 90] /\
+  fst (fst (getopt_call ex_shorts [] ex_argv_next (set_optind g_after_failure 1))) = GShort 113 None /\
+  fst (fst (getopt_call ex_shorts [] ex_argv_next (g_reset g_after_failure))) = GShort 105 (Some [57]).
+Proof. exact stale_cluster_refuted. Qed.
+Print Assumptions C17_stale_cluster_refuted.
+
+(* end to end on the argument vector, for EVERY argument text a and every earlier scan state g:
+   "prog -i a" and "prog --int=a" give exactly int_outcome a (theorems of part 1), an undeclared
+   option gives -1 and assigns nothing *)
+Theorem C17_parse_argv_short_int : forall strtod (st : store) (a : str) (g : gstate),
+  let r := parse_argv strtod (ex_world st) 0%nat [w_prog; [45; 105]; a] g in
+  match int_outcome a with
+  | Some v => fst (fst r) = 3 /\ w_store (snd (fst r)) = st_set st 0%nat (VI v)
+  | None => fst (fst r) = -1 /\ w_store (snd (fst r)) = st
+  end.
+Proof. exact parse_argv_short_int. Qed.
+Print Assumptions C17_parse_argv_short_int.
+
+Theorem C17_parse_argv_long_int : forall strtod (st : store) (a : str) (g : gstate),
+  let r := parse_argv strtod (ex_world st) 0%nat [w_prog; 45 :: 45 :: s_int ++ cEQ :: a] g in
+  match int_outcome a with
+  | Some v => fst (fst r) = 2 /\ w_store (snd (fst r)) = st_set st 0%nat (VI v)
+  | None => fst (fst r) = -1 /\ w_store (snd (fst r)) = st
+  end.
+Proof. exact parse_argv_long_int. Qed.
+Print Assumptions C17_parse_argv_long_int.
+
+Theorem C17_parse_argv_unknown : forall strtod st g,
+  let r := parse_argv strtod (ex_world st) 0%nat [w_prog; [45; 90]] g in
+  fst (fst r) = -1 /\ w_store (snd (fst r)) = st.
+Proof. exact parse_argv_unknown. Qed.
+Print Assumptions C17_parse_argv_unknown.
+
+(* === 4. loading an arbitrary file === *)
+(* for ALL file contents (arbitrary bytes), tables and worlds the loaders return 0 or -1: no path of
+   the model reaches a NULL dereference (6404e3e, 5a6ac04), and the reading loop needs no more
+   iterations than there are bytes (it always ends) *)
+Theorem C17_load_never_crashes : forall strtod w o f,
+  fst (load_ini strtod w o f) = 0 \/ fst (load_ini strtod w o f) = -1.
+Proof. exact load_never_crashes. Qed.
+Print Assumptions C17_load_never_crashes.
+
+Theorem C17_load_args_never_crashes : forall w o f, fst (load_args w o f) = 0 \/ fst (load_args w o f) = -1.
+Proof. exact load_args_never_crashes. Qed.
+Print Assumptions C17_load_args_never_crashes.
+
+Theorem C17_ini_loop_terminates : forall f1 f2 rest pre sec d errs, (length rest < f1)%nat -> (length rest < f2)%nat ->
+  ini_loop f1 rest pre sec d errs = ini_loop f2 rest pre sec d errs.
+Proof. exact ini_loop_fuel. Qed.
+Print Assumptions C17_ini_loop_terminates.
+
+(* === 5. the reader on the writer's layout === *)
+Theorem C17_ini_line_entry : forall k v, key_safe k = true -> ini_safe v = true ->
+  (length (entry_line k v) <= LINESZ)%nat ->
+  ini_line (rstrip (entry_line k v)) = LValue (map to_lower k) v.
+Proof. exact ini_line_entry. Qed.
+Print Assumptions C17_ini_line_entry.
+
+Theorem C17_ini_line_section : forall p, sec_safe p = true -> (length (section_line p) <= LINESZ)%nat ->
+  ini_line (rstrip (section_line p)) = LSection (Some (map to_lower p)).
+Proof. exact ini_line_section. Qed.
+Print Assumptions C17_ini_line_section.
+
+(* iniparser_load on any document of title / section / entry lines in the safe classes: exactly the
+   assignments of the document, in order *)
+Theorem C17_ini_load_document : forall doc, forallb iline_ok doc = true ->
+  ini_load (flat (map render doc)) = Some (set_all (doc_assigns [] doc) []).
+Proof. exact ini_load_doc. Qed.
+Print Assumptions C17_ini_load_document.
+
+Theorem C17_save_writes_document : forall fmt16 w ob, save_text fmt16 w ob = flat (map render (save_doc fmt16 w ob)).
+Proof. exact save_text_doc. Qed.
+Print Assumptions C17_save_writes_document.
+
+(* === 6. save -> load -> load_args into a fresh, identically declared object === *)
+(* For ALL option tables (any nesting of prefixes, any sharing of variables between options of one type),
+   ALL stores and argument lists that satisfy roundtrip_ok (ini-safe strings / arguments / key-value keys,
+   keys distinct up to case and distinct from section names, ints in INT_MIN..INT_MAX, switch counts
+   0..INT_MAX, sizes 0..LLONG_MAX, key-value text consistent with its variable, doubles that libc reads
+   back without ERANGE), all fresh worlds w0 with the same declarations and ARBITRARY variable contents:
+   all three calls succeed, every saved option variable holds `restored` (part below), the key-value
+   texts and the argument list are reproduced. *)
+Theorem C17_save_load_roundtrip : forall strtod fmt16 (w w0 : world) (o o0 : nat) (f : str),
+  let ob := get_opts w o in
+  let ob0 := get_opts w0 o0 in
+  w_kvs w0 = w_kvs w -> w_sobjs w0 = w_sobjs w -> Forall2 same_decl (o_items ob0) (o_items ob) ->
+  roundtrip_ok strtod fmt16 w ob -> bad_path f = false ->
+  let w1 := snd (save fmt16 w o f) in
+  let w0' := mkW (w_store w0) (w_sobjs w0) (w_nsobj w0) (w_opts w0) (w_kvs w0) (w_fs w1) (w_errno w0) in
+  let r2 := fst (load_ini strtod w0' o0 f) in
+  let w2 := snd (load_ini strtod w0' o0 f) in
+  let r3 := fst (load_args w2 o0 f) in
+  let w3 := snd (load_args w2 o0 f) in
+  fst (save fmt16 w o f) = 0 /\ r2 = 0 /\ r3 = 0 /\
+  (forall it, In it (o_items ob) -> active w it = true ->
+     st_get (w_store w3) (tvar (w_sobjs w) it) = restored strtod fmt16 w it) /\
+  o_items (get_opts w3 o0) = o_items ob /\
+  o_args (get_opts w3 o0) = saved_args ob /\ o_first (get_opts w3 o0) = 0.
+Proof. exact save_load_roundtrip. Qed.
+Print Assumptions C17_save_load_roundtrip.
+
+(* integers, sizes, switch counts and key-value choices exactly; booleans as true/false; strings
+   exactly; doubles as libc reads back its own "%.16g" text (outside the theorem, see docs/C17.md) *)
+Theorem C17_roundtrip_values : forall strtod fmt16 w st' it,
+  st_get st' (tvar (w_sobjs w) it) = restored strtod fmt16 w it ->
+  match it_type it with
+  | TSwitch | TInt | TSize | TKeyvalue => st_int st' (it_var it) = st_int (w_store w) (it_var it)
+  | TBool => st_int st' (it_var it) = if st_int (w_store w) (it_var it) =? 0 then 0 else 1
+  | TString => st_str st' (tvar (w_sobjs w) it) = string_get w (it_var it)
+  | TDouble => st_dbl st' (it_var it) = fst (strtod (fmt16 (st_dbl (w_store w) (it_var it))))
+  | _ => True
+  end.
+Proof. exact restored_meaning. Qed.
+Print Assumptions C17_roundtrip_values.
+
+(* the conditions can be evaluated: the check does so on every saved state of every history *)
+Theorem C17_roundtrip_guard_sound : forall strtod fmt16 w ob,
+  roundtrip_ok_b strtod fmt16 w ob = true -> roundtrip_ok strtod fmt16 w ob.
+Proof. exact roundtrip_ok_b_ok. Qed.
+Print Assumptions C17_roundtrip_guard_sound.
+
+(* outside the class the statement is false (recorded findings F-C17c, F-C17h and the case-insensitive keys) *)
+Theorem C17_roundtrip_unsafe_refuted :
+  forallb (fun s => negb (ini_safe s) && negb (ostr_eqb (snd (str_roundtrip s)) (Some s))) unsafe_witnesses = true.
+Proof. exact roundtrip_unsafe_refuted. Qed.
+Print Assumptions C17_roundtrip_unsafe_refuted.
+
+Theorem C17_keyvalue_stale_copy_refuted :
+  let r := run toy_strtod toy_fmt empty_world kv_history in
+  skipn 9 (fst r) = [3; 1; 0; 0] /\
+  st_int (w_store (snd r)) 0 = -7 /\
+  st_int (w_store (snd r)) 32 = 5 /\
+  roundtrip_ok_b toy_strtod toy_fmt (snd (run toy_strtod toy_fmt empty_world (firstn 11 kv_history)))
+                 (get_opts (snd (run toy_strtod toy_fmt empty_world (firstn 11 kv_history))) 0) = false.
+Proof. exact keyvalue_stale_copy_refuted. Qed.
+Print Assumptions C17_keyvalue_stale_copy_refuted.
+
+Theorem C17_key_case_collision_refuted :
+  let r := run toy_strtod toy_fmt empty_world case_history in
+  skipn 6 (fst r) = [5; 0; 0] /\
+  (st_int (w_store (snd r)) 0, st_int (w_store (snd r)) 1) = (1, 2) /\
+  (st_int (w_store (snd r)) 32, st_int (w_store (snd r)) 33) = (2, 2) /\
+  roundtrip_ok_b toy_strtod toy_fmt (snd (run toy_strtod toy_fmt empty_world (firstn 7 case_history)))
+                 (get_opts (snd (run toy_strtod toy_fmt empty_world (firstn 7 case_history))) 0) = false.
+Proof. exact key_case_collision_refuted. Qed.
+Print Assumptions C17_key_case_collision_refuted.
+
+(* === hypotheses are satisfiable, by a non-trivial state === *)
+Example C17_ex_roundtrip_hypotheses : roundtrip_ok toy_strtod toy_fmt wx (get_opts wx 0).
+Proof. exact roundtrip_hypotheses_satisfiable. Qed.
+Example C17_ex_state :
+  st_int (w_store wx) 3 = INT_MIN /\ st_int (w_store wx) 4 = 12 /\ st_int (w_store wx) 5 = LONG_MAX /\
+  st_int (w_store wx) 1 = -7 /\ st_str (w_store wx) 2 = Some t_text /\ st_int (w_store wx) 6 = 1.
+Proof. exact state_values. Qed.
+Example C17_ex_strtol : strtol [32; 45; 48; 120; 55; 102; 122] = (-127, false).       (* " -0x7fz" *)
 Proof. reflexivity. Qed.
-Print Assumptions C17_stub.
+Example C17_ex_digits : Forall (is_digit 16) [55; 102] /\ stops 16 [122] /\ horner 16 0 [55; 102] = 127.
+Proof. repeat split; repeat constructor; vm_compute; intuition discriminate. Qed.
+Example C17_ex_safe : ini_safe t_text = true /\ key_safe [45; 115] = true /\ sec_safe [112; 114; 101; 58; 105; 110] = true.
+Proof. repeat split; reflexivity. Qed.
